@@ -1,7 +1,6 @@
 package definition
 
 import (
-	"strings"
 	"sync"
 
 	"github.com/nyaruka/goflow/assets"
@@ -48,7 +47,9 @@ func (a *flowAssets) Get(uuid assets.FlowUUID) (flows.Flow, error) {
 		return nil, err
 	}
 
-	a.cache[flow.UUID()] = flow
+	// cached under the UUID it was asked for, which is the only key it is ever looked up by - the UUID inside
+	// the definition may be that of a different flow asset
+	a.cache[uuid] = flow
 	return flow, nil
 }
 
@@ -57,22 +58,23 @@ func (a *flowAssets) FindByName(name string) (flows.Flow, error) {
 	a.mutex.Lock()
 	defer a.mutex.Unlock()
 
-	for _, flow := range a.cache {
-		if strings.EqualFold(flow.Name(), name) {
-			return flow, nil
-		}
-	}
-
+	// which flow a name refers to is decided by the source alone, so that the answer doesn't depend on which
+	// flows happen to have been loaded already
 	asset, err := a.source.FlowByName(name)
 	if err != nil {
 		return nil, err
 	}
 
-	flow, err := ReadAsset(asset, a.migrationConfig)
+	flow := a.cache[asset.UUID()]
+	if flow != nil {
+		return flow, nil
+	}
+
+	flow, err = ReadAsset(asset, a.migrationConfig)
 	if err != nil {
 		return nil, err
 	}
 
-	a.cache[flow.UUID()] = flow
+	a.cache[asset.UUID()] = flow
 	return flow, nil
 }
